@@ -16,7 +16,29 @@
 //!   (cli-kill …same…)        → (crash-states (state ENTRY…)…): the trees left behind when SIGKILL is injected at
 //!                              every state-changing syscall of the LAST gen step (plus before/after)
 //!   (cli-kill-oracle …same…) → (ok (kill-points N) (states K)) | (fail "…"): every surviving file holds its
-//!                              complete old or complete new content; other residue = `.tmp*` files next to outputs
+//!                              complete old or complete new content; other residue = `.tmp*` files next to outputs;
+//!                              and RECOVERY: the CLI run again (to completion) after each kill ends with every
+//!                              output holding the content of the un-killed reference run
+//!   (cli-paths (opts …) (multi "src1" "src2" …))  /  (spec-cli-paths …same…)
+//!        SEVERAL sources on one command line (safe and unsafe shapes mixed, in every position) in a fresh directory
+//!        → (multi (status S) (files "p"…)): S as in cli-hist; files = EVERY regular file other than the sources that
+//!          exists below the case root afterwards (inside and outside the output directory; `..`-relative names for
+//!          what lies outside the cwd); `(stray-dirs …)` is appended if a directory was created that holds no output.
+//!          model: Model.Cli.generateUi; spec: refused (and nothing written) iff -O is given and SOME source is
+//!          absolute or has a `..` segment, otherwise exactly the documented names at the documented places.
+//!          The option is spelled `-O DIR`, `--output-directory=DIR` or `-ODIR` (number of sources mod 3).
+//!   (cli-fresh-oracle …same arguments as cli-hist…) → (ok (steps N) (skipped K)) | (fail "…")
+//!        further STEPs: (chmod "p" ro|rw) (permission bits of an existing file; no-op in the model);
+//!        (put-link "p" "target") a symbolic link (oracle kinds only: symbolic links are outside the model).
+//!        After EVERY gen step (whatever the history before it: edits of only a binding expression, of only a constant,
+//!        of both, of neither, removed / stale / read-only outputs, failing sources, unsafe sources mixed in):
+//!        (1) the exit-status class is the documented one (refused iff -O and some unsafe source, …);
+//!        (2) every output of every translated source holds byte for byte what a FRESH run of the same binary
+//!            produces for that source text in an empty directory (reference run), at the documented path;
+//!        (3) an output that already held that content keeps inode, mtime and mode;
+//!        (4) nothing else below the case root — inside or outside the output directory, sources included — is
+//!            created, modified or removed; new directories are ancestors of outputs.
+//!        Steps ending in an I/O error (blocked paths) are skipped: the property is silent there.
 //! Paths are relative to the CLI's cwd (`/ABS` in a request stands for that cwd), lexically normalised, temp
 //! names printed as `.tmp*`.  Every case runs in a fresh directory under std::env::temp_dir(), removed afterwards.
 use crate::rng::Rng;
@@ -333,10 +355,20 @@ fn unescape_strace(s: &str) -> String {
 
 impl C15 {
     fn cli_args(&self, case: &CaseDir, o: &Opts, sources: &[String]) -> Vec<String> {
+        self.cli_args_spelled(case, o, sources, 0)
+    }
+
+    fn cli_args_spelled(&self, case: &CaseDir, o: &Opts, sources: &[String], long_opt: u8) -> Vec<String> {
         let mut args = vec!["generate-ui".to_owned(), "--foreign-types".to_owned(), self.metatypes.clone()];
         if let Some(d) = &o.outdir {
-            args.push("-O".to_owned());
-            args.push(subst_abs(&case.cwd, d));
+            if long_opt == 1 {
+                args.push(format!("--output-directory={}", subst_abs(&case.cwd, d)));
+            } else if long_opt == 2 && !d.is_empty() {
+                args.push(format!("-O{}", subst_abs(&case.cwd, d)));
+            } else {
+                args.push("-O".to_owned());
+                args.push(subst_abs(&case.cwd, d));
+            }
         }
         if o.nodyn {
             args.push("--no-dynamic-binding".to_owned());
@@ -572,6 +604,10 @@ struct World<'a> {
     /// reference contents: bytes → content class
     refs: Vec<(Vec<u8>, Sexp)>,
     ref_done: Vec<(String, u32, u32)>,
+    /// reference ("fresh") outputs of (file name, u, h): ui bytes, header bytes
+    fresh: Vec<((String, u32, u32), Option<Vec<u8>>, Option<Vec<u8>>)>,
+    /// how the option is spelled: 0 `-O DIR`, 1 `--output-directory=DIR`, 2 `-ODIR` (attached; `-O DIR` if DIR is empty)
+    long_opt: u8,
 }
 
 fn type_name_of(path: &str) -> String {
@@ -584,7 +620,7 @@ fn type_name_of(path: &str) -> String {
 
 impl<'a> World<'a> {
     fn new(s: &'a C15, opts: Opts, sources: Vec<Source>) -> Self {
-        let w = World { s, case: CaseDir::new(), opts, sources, refs: vec![], ref_done: vec![] };
+        let w = World { s, case: CaseDir::new(), opts, sources, refs: vec![], ref_done: vec![], fresh: vec![], long_opt: 0 };
         for i in 0..w.sources.len() {
             w.materialise(i);
         }
@@ -639,6 +675,7 @@ impl<'a> World<'a> {
             return;
         }
         let tn = type_name_of(&file);
+        let (mut fresh_ui, mut fresh_h) = (None, None);
         for e in fs::read_dir(&dir).unwrap().flatten() {
             let name = e.file_name().to_str().unwrap().to_owned();
             if name == file {
@@ -646,14 +683,17 @@ impl<'a> World<'a> {
             }
             let bytes = fs::read(e.path()).unwrap();
             let class = if name.ends_with(".ui") {
+                fresh_ui = Some(bytes.clone());
                 node("ui", vec![st(tn.clone()), num(u), num(h.min(1))])
             } else {
+                fresh_h = Some(bytes.clone());
                 node("hdr", vec![st(tn.clone()), num(h)])
             };
             if !self.refs.iter().any(|(b, c)| *b == bytes && *c == class) {
                 self.refs.push((bytes, class));
             }
         }
+        self.fresh.push(((file, u, h), fresh_ui, fresh_h));
     }
 
     fn classify(&self, bytes: &[u8]) -> Sexp {
@@ -733,6 +773,23 @@ impl<'a> World<'a> {
             "put-dir" => {
                 fs::create_dir_all(self.real_path(a[0].as_str().unwrap())).unwrap();
             }
+            "put-link" => {
+                // a symbolic link `a[0]` to the file `a[1]` (relative to the link's directory); may dangle for a while
+                let p = self.real_path(a[0].as_str().unwrap());
+                if let Some(d) = p.parent() {
+                    fs::create_dir_all(d).unwrap();
+                }
+                let _ = fs::remove_file(&p);
+                std::os::unix::fs::symlink(a[1].as_str().unwrap(), &p).unwrap();
+            }
+            "chmod" => {
+                use std::os::unix::fs::PermissionsExt;
+                let p = self.real_path(a[0].as_str().unwrap());
+                let mode = if a[1].as_atom() == Some("ro") { 0o444 } else { 0o644 };
+                if p.is_file() {
+                    fs::set_permissions(&p, fs::Permissions::from_mode(mode)).unwrap();
+                }
+            }
             _ => panic!("unknown step {tag}"),
         }
     }
@@ -741,7 +798,7 @@ impl<'a> World<'a> {
         for i in 0..self.sources.len() {
             self.ensure_ref(i);
         }
-        let args = self.s.cli_args(&self.case, &self.opts, &self.source_args());
+        let args = self.s.cli_args_spelled(&self.case, &self.opts, &self.source_args(), self.long_opt);
         self.s.run_cli(&self.case, &self.case.cwd.clone(), &args, mode)
     }
 
@@ -770,6 +827,163 @@ impl<'a> World<'a> {
     }
 }
 
+
+/// the documented refusal rule on the path TEXT: absolute, or some `/`-separated segment is `..`
+fn unsafe_source_text(p: &str) -> bool {
+    p.starts_with('/') || p.split('/').any(|s| s == "..")
+}
+
+impl<'a> World<'a> {
+    /// documentation rule, written without the model: the real absolute paths of the outputs of a source
+    /// (`None`: not a plain `STEM.qml` name — the oracle makes no prediction)
+    fn doc_outputs(&self, src: &str) -> Option<(String, String)> {
+        let (dir, file) = src.rsplit_once('/').unwrap_or(("", src));
+        if file.len() < 5 || !file[file.len() - 4..].eq_ignore_ascii_case(".qml") || file.starts_with('.') {
+            return None;
+        }
+        let stem = &file[..file.len() - 4];
+        let stem = if self.opts.nolower { stem.to_owned() } else { stem.to_ascii_lowercase() };
+        let cwd = self.case.cwd.to_str().unwrap();
+        let dir = subst_abs(&self.case.cwd, dir);
+        let base = match &self.opts.outdir {
+            Some(od) => format!("{}/{}", subst_abs(&self.case.cwd, od), dir),
+            None => dir,
+        };
+        let abs = if base.starts_with('/') { base } else { format!("{cwd}/{base}") };
+        let real = |name: String| format!("/{}", normalize_abs(&format!("{abs}/{name}")).join("/"));
+        Some((real(format!("{stem}.ui")), real(format!("uisupport_{stem}.h"))))
+    }
+
+    fn fresh_of(&self, i: usize) -> Option<&((String, u32, u32), Option<Vec<u8>>, Option<Vec<u8>>)> {
+        let SrcState::Ok(u, h) = self.sources[i].state else { return None };
+        let file = self.sources[i].path.rsplit('/').next().unwrap_or("");
+        self.fresh.iter().find(|(k, _, _)| k.0 == file && k.1 == u && k.2 == h)
+    }
+
+    /// The property oracle for one regenerate step (see the module documentation, `cli-fresh-oracle`).
+    /// `Ok(true)`: judged and fine; `Ok(false)`: outside what the property speaks about; `Err`: violations.
+    fn judge_step(&self, before: &BTreeMap<String, Entry>, after: &BTreeMap<String, Entry>, status: &str) -> Result<bool, Vec<String>> {
+        let rel = |p: &str| rel_to_cwd(&self.case.cwd, p);
+        if matches!(status, "killed" | "panic" | "other" | "temp-name-shape") {
+            return Err(vec![format!("the run ended with status class {status}")]);
+        }
+        if status.starts_with("io-") || status == "invalid" {
+            return Ok(false);
+        }
+        // what the documentation predicts for this command line and these source states
+        let mut translated: Vec<usize> = vec![];
+        let predicted = if self.opts.outdir.is_some() && self.sources.iter().any(|s| unsafe_source_text(&s.path)) {
+            "refused"
+        } else if self.sources.iter().any(|s| s.state == SrcState::Missing) {
+            "populate"
+        } else {
+            let mut diag = false;
+            let mut stopped = false;
+            for (k, s) in self.sources.iter().enumerate() {
+                let file = s.path.rsplit('/').next().unwrap_or("");
+                let qml = file.len() >= 5 && file[file.len() - 4..].eq_ignore_ascii_case(".qml");
+                match &s.state {
+                    SrcState::Dir => {
+                        stopped = true;
+                        break;
+                    }
+                    _ if !qml => {
+                        stopped = true;
+                        break;
+                    }
+                    SrcState::Fail => diag = true,
+                    SrcState::Ok(_, h) if self.opts.nodyn && *h > 0 => diag = true,
+                    SrcState::Ok(..) => translated.push(k),
+                    SrcState::Missing => unreachable!(),
+                }
+            }
+            if stopped {
+                "not-loaded"
+            } else if diag {
+                "diagnostic"
+            } else {
+                "ok"
+            }
+        };
+        let mut f: Vec<String> = vec![];
+        if status != predicted {
+            f.push(format!("exit-status class `{status}`, the documentation predicts `{predicted}`"));
+        }
+        let mut expect: BTreeMap<String, Vec<u8>> = BTreeMap::new();
+        if matches!(predicted, "ok" | "diagnostic" | "not-loaded") {
+            for &k in &translated {
+                let Some((ui, hdr)) = self.doc_outputs(&self.sources[k].path) else { return Ok(false) };
+                let Some((_, fresh_ui, fresh_h)) = self.fresh_of(k) else { return Ok(false) };
+                let mut jobs = vec![(ui, fresh_ui)];
+                if !self.opts.nodyn {
+                    jobs.push((hdr, fresh_h));
+                }
+                for (path, bytes) in jobs {
+                    let Some(bytes) = bytes else {
+                        f.push(format!("the reference run in an empty directory did not produce {}", rel(&path)));
+                        continue;
+                    };
+                    if let Some(prev) = expect.get(&path) {
+                        if prev != bytes {
+                            return Ok(false); // two sources claim one output path (known finding F16): no prediction
+                        }
+                    }
+                    expect.insert(path, bytes.clone());
+                }
+            }
+        }
+        // (2) + (3): outputs hold the content of a fresh run; untouched if they already did
+        for (path, bytes) in &expect {
+            match after.get(path) {
+                Some(e) if !e.is_dir && e.content == *bytes => {
+                    if let Some(b) = before.get(path) {
+                        if !b.is_dir && b.content == *bytes && (b.ino != e.ino || b.mtime != e.mtime || b.mode != e.mode) {
+                            f.push(format!("{} already held the content of a fresh run but was replaced (inode/mtime/mode changed)", rel(path)));
+                        }
+                    }
+                }
+                Some(e) if e.is_dir => f.push(format!("{} is a directory although the run reported success", rel(path))),
+                Some(e) => {
+                    let was = match before.get(path) {
+                        Some(b) if !b.is_dir && b.content == e.content => "its previous content was left in place",
+                        Some(_) => "it was rewritten with something else",
+                        None => "it was created with something else",
+                    };
+                    f.push(format!("{} does not hold what a fresh run of the same source produces: {was}", rel(path)));
+                }
+                None => f.push(format!("{} does not exist after a run that translated its source", rel(path))),
+            }
+        }
+        // (4): nothing else is created, modified or removed anywhere below the case root
+        for (path, e) in after {
+            if expect.contains_key(path) {
+                continue;
+            }
+            match before.get(path) {
+                Some(b) if b.is_dir && e.is_dir => {}
+                Some(b) if b == e => {}
+                Some(_) => f.push(format!("{} was modified although it is not an output of a translated source", rel(path))),
+                None if e.is_dir => {
+                    if !expect.keys().any(|o| o.starts_with(&format!("{path}/"))) {
+                        f.push(format!("directory {} was created although no output goes there", rel(path)));
+                    }
+                }
+                None => f.push(format!("unexpected new file {} (status class {status})", rel(path))),
+            }
+        }
+        for path in before.keys() {
+            if !after.contains_key(path) {
+                f.push(format!("{} was removed", rel(path)));
+            }
+        }
+        if f.is_empty() {
+            Ok(true)
+        } else {
+            Err(f)
+        }
+    }
+}
+
 fn parse_sources(s: &Sexp) -> Vec<Source> {
     let (_, a) = s.as_node().expect("sources");
     a.iter()
@@ -790,6 +1004,9 @@ fn parse_sources(s: &Sexp) -> Vec<Source> {
 impl C15 {
     fn answer_paths(&self, args: &[Sexp]) -> Sexp {
         let opts = parse_opts(&args[0]);
+        if let Some(("multi", srcs)) = args[1].as_node() {
+            return self.answer_multi(opts, srcs);
+        }
         let src = args[1].as_str().unwrap().to_owned();
         let mut w = World::new(self, opts, vec![Source { path: src, state: SrcState::Ok(1, 0) }]);
         let before = snapshot(&w.case.root);
@@ -890,6 +1107,88 @@ impl C15 {
         }
     }
 
+
+    /// several sources on one command line in a fresh directory: status class + every file that exists afterwards
+    fn answer_multi(&self, opts: Opts, srcs: &[Sexp]) -> Sexp {
+        let sources: Vec<Source> = srcs
+            .iter()
+            .enumerate()
+            .map(|(i, p)| Source {
+                path: p.as_str().expect("source path").to_owned(),
+                state: SrcState::Ok(1, if opts.nodyn { 0 } else { (i % 2) as u32 }),
+            })
+            .collect();
+        let mut w = World::new(self, opts, sources);
+        w.long_opt = (srcs.len() % 3) as u8;
+        let before = snapshot(&w.case.root);
+        let r = w.gen(Strace::No);
+        let after = snapshot(&w.case.root);
+        let status = self.status_of(&r);
+        let mut files: Vec<String> = vec![];
+        let mut touched_sources: Vec<String> = vec![];
+        for (real, e) in &after {
+            if e.is_dir {
+                continue;
+            }
+            if w.is_source_file(real) {
+                if before.get(real) != Some(e) {
+                    touched_sources.push(rel_to_cwd(&w.case.cwd, real));
+                }
+                continue;
+            }
+            let n = rel_to_cwd(&w.case.cwd, real);
+            if !files.contains(&n) {
+                files.push(n);
+            }
+        }
+        files.sort();
+        let stray: Vec<String> = after
+            .iter()
+            .filter(|(p, e)| {
+                e.is_dir && !before.contains_key(*p) && !after.iter().any(|(q, x)| !x.is_dir && q.starts_with(&format!("{p}/")) && !w.is_source_file(q))
+            })
+            .map(|(p, _)| rel_to_cwd(&w.case.cwd, p))
+            .collect();
+        let mut out = vec![node("status", vec![status]), node("files", files.into_iter().map(st).collect())];
+        if !stray.is_empty() {
+            out.push(node("stray-dirs", stray.into_iter().map(st).collect()));
+        }
+        if !touched_sources.is_empty() {
+            out.push(node("sources-modified", touched_sources.into_iter().map(st).collect()));
+        }
+        node("multi", out)
+    }
+
+    /// property oracle over histories: see the module documentation
+    fn answer_fresh_oracle(&self, args: &[Sexp]) -> Sexp {
+        let opts = parse_opts(&args[0]);
+        let mut w = World::new(self, opts, parse_sources(&args[1]));
+        let (_, steps) = args[2].as_node().expect("steps");
+        let (mut judged, mut skipped) = (0, 0);
+        let mut failures: Vec<String> = vec![];
+        for (i, step) in steps.iter().enumerate() {
+            if step.as_node().map(|x| x.0) == Some("gen") {
+                let before = snapshot(&w.case.root);
+                let r = w.gen(Strace::No);
+                let after = snapshot(&w.case.root);
+                let status = self.status_of(&r);
+                match w.judge_step(&before, &after, status.as_atom().unwrap()) {
+                    Ok(true) => judged += 1,
+                    Ok(false) => skipped += 1,
+                    Err(v) => failures.extend(v.into_iter().map(|m| format!("step {i}: {m}"))),
+                }
+            } else {
+                w.apply_edit(step);
+            }
+        }
+        if failures.is_empty() {
+            node("ok", vec![node("steps", vec![num(judged)]), node("skipped", vec![num(skipped)])])
+        } else {
+            failures.truncate(6);
+            node("fail", failures.into_iter().map(st).collect())
+        }
+    }
+
     /// replays the history up to (excluding) the last gen step in a fresh case directory
     fn replay_to_last<'a>(&'a self, args: &[Sexp]) -> World<'a> {
         let opts = parse_opts(&args[0]);
@@ -931,6 +1230,8 @@ impl C15 {
         add_state(&w0, &after);
         let mut failures: Vec<String> = vec![];
         let mut killed_runs = 0;
+        let mut recovered = 0;
+        let ref_status = self.status_of(&r0).render();
         for kp in &r0.kill_points {
             let mut w = self.replay_to_last(args);
             let r = w.gen(Strace::Kill(kp.clone()));
@@ -993,13 +1294,38 @@ impl C15 {
                     failures.push(format!("{p} vanished after kill at {} #{}", kp.syscall, kp.ordinal));
                 }
             }
+            // recovery: the CLI run again to completion ends with every output as in the un-killed reference run
+            if matches!(ref_status.as_str(), "ok" | "diagnostic") {
+                let r2 = w.gen(Strace::No);
+                let s2 = self.status_of(&r2).render();
+                if s2 != ref_status {
+                    failures.push(format!("re-run after kill at {} #{} ends with {s2}, the un-killed run with {ref_status}", kp.syscall, kp.ordinal));
+                }
+                let cur2 = rel(&w, &snapshot(&w.case.root));
+                let is_tmp = |p: &str| p.rsplit('/').next().unwrap_or("").starts_with(".tmp");
+                for (p, n) in &new {
+                    if n.is_dir || is_tmp(p) {
+                        continue;
+                    }
+                    match cur2.get(p) {
+                        Some(c) if !c.is_dir && c.content == n.content => {}
+                        _ => failures.push(format!("{p} does not hold the reference content after kill at {} #{} + complete re-run", kp.syscall, kp.ordinal)),
+                    }
+                }
+                for (p, c) in &cur2 {
+                    if !c.is_dir && !is_tmp(p) && !new.contains_key(p) {
+                        failures.push(format!("unexpected file {p} after kill at {} #{} + complete re-run", kp.syscall, kp.ordinal));
+                    }
+                }
+                recovered += 1;
+            }
         }
         states.sort_by(|a, b| a.0.cmp(&b.0));
         let n_states = states.len();
         let mut sv = vec![atom("crash-states")];
         sv.extend(states.into_iter().map(|x| x.1));
         let oracle = if failures.is_empty() {
-            node("ok", vec![node("kill-points", vec![num(killed_runs)]), node("states", vec![num(n_states)])])
+            node("ok", vec![node("kill-points", vec![num(killed_runs)]), node("states", vec![num(n_states)]), node("recovered", vec![num(recovered)])])
         } else {
             failures.truncate(5);
             node("fail", failures.into_iter().map(st).collect())
@@ -1025,6 +1351,17 @@ const SHAPES: &[&str] = &[
     "../Esc.qml", "sub/../../Esc2.qml", "/ABS/Abs.qml", "/ABS/sub/Abs2.qml", "..qml", "x..qml", ".qml", "noext",
     "name.txt", "UPPER_CASE.qml", "with space.qml", "\u{dc}n\u{ef}.qml", "sub/.hidden.qml", ".tmpabc/T.qml",
     "Sub/Dir/CamelCase.qml", "a/b/c/d/e/Deep.qml", "uisupport_x.qml", "x.ui.qml", "-dash.qml", "./././Dots.qml",
+];
+/// sources `--output-directory` must refuse: a `..` segment anywhere (escaping or not), absolute paths
+const UNSAFE_SHAPES: &[&str] = &[
+    "../Esc.qml", "a/../Back.qml", "sub/../../Esc2.qml", "/ABS/Abs.qml", "/ABS/sub/Abs2.qml", "./../E3.qml",
+    "a/b/../../../E4.qml", "sub/..//E5.qml", "../../E6.qml", "/ABS/../E7.qml", "a/./../b/E8.qml",
+];
+/// sources it must accept (relative, no `..` SEGMENT — `..b`, `b..`, `...` are ordinary names)
+const SAFE_SHAPES: &[&str] = &[
+    "X.qml", "./Dot.qml", "sub/Y.qml", "a/b/Z.qml", "sub//a/./W.qml", "./././D.qml", "Up.QML", "sub/.hid/H.qml",
+    "with space.qml", "\u{dc}n\u{ef}.qml", "..b/C.qml", "b../C2.qml", ".../C3.qml", "a/b/c/d/e/Deep.qml", "Sub/Dir/CamelCase.qml",
+    "x..qml", "x.ui.qml", "-dash.qml",
 ];
 const OUTDIRS: &[Option<&str>] =
     &[None, Some("out"), Some("out/put"), Some("../o2"), Some("/ABS/absout"), Some("."), Some(""), Some("./o/./p//q")];
@@ -1073,8 +1410,18 @@ fn gen_history(rng: &mut Rng, short: bool) -> (Opts, Vec<(String, String)>, Vec<
         let h = if nodyn && rng.chance(3, 4) { 0 } else { rng.below(3) };
         format!("{} {}", 1 + rng.below(3), h)
     };
-    let mut sources: Vec<(String, String)> = paths.iter().map(|p| (p.clone(), state(rng))).collect();
     let mut labels = vec![format!("outdir-{}", o.outdir.clone().unwrap_or("none".into()).replace('/', "_")), format!("sources{n}")];
+    // with -O: sometimes an absolute / `..` source among the safe ones, in any position (every gen step must be refused
+    // and leave everything alone, whatever the other sources and the history)
+    let mut n = n;
+    if o.outdir.is_some() && !short && rng.chance(1, 7) {
+        let at = rng.below(paths.len() + 1);
+        paths.insert(at, (*rng.pick(UNSAFE_SHAPES)).to_owned());
+        n += 1;
+        labels.push("mixed-unsafe".into());
+    }
+    let safe: Vec<usize> = (0..n).filter(|&k| o.outdir.is_none() || !unsafe_source_text(&paths[k])).collect();
+    let mut sources: Vec<(String, String)> = paths.iter().map(|p| (p.clone(), state(rng))).collect();
     if rng.chance(1, 12) {
         let k = rng.below(n);
         sources[k].1 = (*rng.pick(&["fail", "missing", "dir"])).to_owned();
@@ -1096,16 +1443,43 @@ fn gen_history(rng: &mut Rng, short: bool) -> (Opts, Vec<(String, String)>, Vec<
         let base = if base.is_empty() { String::new() } else { format!("{base}/") };
         (format!("{base}{stem}.ui"), format!("{base}uisupport_{stem}.h"))
     };
+    let mut cur: Vec<String> = sources.iter().map(|x| x.1.clone()).collect();
     for _ in 0..n_steps {
-        match rng.below(10) {
+        match rng.below(12) {
             0..=3 => {
                 let k = rng.below(n);
                 if special[k] {
                     continue;
                 }
-                let s = state(rng);
+                // only the binding expression / only the constant / both / neither (when the source translates)
+                let s = match (cur[k].split_once(' '), rng.below(5)) {
+                    (Some((u, h)), 0) if h != "0" && u.parse::<u32>().is_ok() => {
+                        labels.push("edit-binding-only".into());
+                        format!("{u} {}", if h == "1" { 2 } else { 1 })
+                    }
+                    (Some((u, h)), 1) if u.parse::<u32>().is_ok() => {
+                        labels.push("edit-constant-only".into());
+                        format!("{} {h}", u.parse::<u32>().unwrap() % 3 + 1)
+                    }
+                    (Some((u, h)), 2) if u.parse::<u32>().is_ok() => {
+                        labels.push("edit-none".into());
+                        format!("{u} {h}")
+                    }
+                    _ => state(rng),
+                };
+                cur[k] = s.clone();
                 steps.push(list(vec![atom("edit"), num(k), atom(s.split(' ').next().unwrap().to_owned()), atom(s.split(' ').nth(1).unwrap().to_owned())]));
                 labels.push("edit".into());
+            }
+            10 | 11 => {
+                // an output made read-only (or writable again): replace-by-rename does not care, an unchanged one stays
+                if blocked || safe.is_empty() {
+                    continue;
+                }
+                let k = *rng.pick(&safe);
+                let (u, h) = out_of(&paths[k], &o);
+                steps.push(node("chmod", vec![st(if rng.chance(1, 2) { u } else { h }), atom(if rng.chance(3, 4) { "ro" } else { "rw" })]));
+                labels.push("chmod-output".into());
             }
             4 => {
                 let k = rng.below(n);
@@ -1113,22 +1487,23 @@ fn gen_history(rng: &mut Rng, short: bool) -> (Opts, Vec<(String, String)>, Vec<
                     continue;
                 }
                 steps.push(list(vec![atom("edit"), num(k), atom("fail")]));
+                cur[k] = "fail".into();
                 labels.push("edit-fail".into());
             }
             5 => {
-                let k = rng.below(n);
-                if blocked {
+                if blocked || safe.is_empty() {
                     continue;
                 }
+                let k = *rng.pick(&safe);
                 let (u, h) = out_of(&paths[k], &o);
                 steps.push(node("rm", vec![st(if rng.chance(1, 2) { u } else { h })]));
                 labels.push("rm-output".into());
             }
             6 => {
-                let k = rng.below(n);
-                if blocked {
+                if blocked || safe.is_empty() {
                     continue;
                 }
+                let k = *rng.pick(&safe);
                 let (u, h) = out_of(&paths[k], &o);
                 steps.push(node("put-file", vec![st(if rng.chance(1, 2) { u } else { h })]));
                 labels.push("stale-output".into());
@@ -1139,16 +1514,16 @@ fn gen_history(rng: &mut Rng, short: bool) -> (Opts, Vec<(String, String)>, Vec<
             }
             8 => {
                 // a directory where an output should go (persist must fail), only if nothing is there yet
-                let k = rng.below(n);
-                if blocked || steps.len() > 1 {
+                if blocked || steps.len() > 1 || safe.is_empty() {
                     continue;
                 }
+                let k = *rng.pick(&safe);
                 blocked = true;
                 let (u, _) = out_of(&paths[k], &o);
                 steps.insert(0, node("put-dir", vec![st(u)]));
                 labels.push("blocker-dir".into());
             }
-            _ => {
+            9 => {
                 // a file where an output directory should be created
                 if let Some(od) = &o.outdir {
                     if !blocked && steps.len() == 1 && !od.is_empty() && od != "." && !od.starts_with("..") && !od.starts_with('/') {
@@ -1158,6 +1533,7 @@ fn gen_history(rng: &mut Rng, short: bool) -> (Opts, Vec<(String, String)>, Vec<
                     }
                 }
             }
+            _ => unreachable!(),
         }
         steps.push(node("gen", vec![]));
     }
@@ -1190,13 +1566,111 @@ impl Stream for C15 {
                 }
             }
         }
+        // 1b. SEVERAL sources on one command line: safe and unsafe shapes mixed, the unsafe ones in every position
+        {
+            let mut push = |o: &Opts, srcs: &[&str], mut labels: Vec<String>| {
+                let n_unsafe = srcs.iter().filter(|p| unsafe_source_text(p)).count();
+                labels.push(format!("multi{}", srcs.len()));
+                labels.push(format!("unsafe{n_unsafe}"));
+                labels.push(format!("outdir:{}", o.outdir.as_deref().unwrap_or("none")));
+                let a = vec![opts_sexp(o), node("multi", srcs.iter().map(|p| st(*p)).collect())];
+                cases.push(Case { kind: "model", labels: labels.clone(), request: node("cli-paths", a.clone()) });
+                cases.push(Case { kind: "spec", labels, request: node("spec-cli-paths", a) });
+            };
+            // systematic: every unsafe shape between two safe ones, in first / middle / last position
+            for (ui, bad) in UNSAFE_SHAPES.iter().enumerate() {
+                for pos in 0..3 {
+                    if !thorough && (ui + pos) % 3 != 0 {
+                        continue;
+                    }
+                    let od = OUTDIRS[1 + (ui + pos) % (OUTDIRS.len() - 1)];
+                    let o = Opts { outdir: od.map(|x| x.to_owned()), nodyn: (ui + pos) % 4 == 3, nolower: (ui + pos) % 5 == 4 };
+                    let mut srcs = vec![SAFE_SHAPES[ui % SAFE_SHAPES.len()], SAFE_SHAPES[(ui + 5) % SAFE_SHAPES.len()]];
+                    srcs.insert(pos, bad);
+                    push(&o, &srcs, vec![format!("unsafe-at{pos}"), format!("shape:{bad}")]);
+                }
+            }
+            // random mixes, with and without -O
+            let n_multi = if thorough { 900 } else { 110 };
+            for _ in 0..n_multi {
+                let od = *rng.pick(OUTDIRS);
+                let o = Opts { outdir: od.map(|x| x.to_owned()), nodyn: rng.chance(1, 4), nolower: rng.chance(1, 4) };
+                let n = 2 + rng.below(4);
+                let n_unsafe = match rng.below(6) {
+                    0..=2 => 0,
+                    3 | 4 => 1,
+                    _ => 2,
+                };
+                let mut srcs: Vec<&str> = (0..n).map(|_| *rng.pick(SAFE_SHAPES)).collect();
+                for _ in 0..n_unsafe {
+                    let at = rng.below(srcs.len() + 1);
+                    srcs.insert(at, *rng.pick(UNSAFE_SHAPES));
+                }
+                push(&o, &srcs, vec!["multi-random".into()]);
+            }
+        }
         // 2. histories under strace
         let n_hist = if thorough { 600 } else { 70 };
         for _ in 0..n_hist {
             let (o, sources, steps, mut labels) = gen_history(&mut rng, false);
             labels.push("history".into());
             cases.push(Case { kind: "model", labels: labels.clone(), request: hist_request("cli-hist", &o, &sources, &steps) });
-            cases.push(Case { kind: "oracle", labels, request: hist_request("cli-rerun-oracle", &o, &sources, &steps) });
+            cases.push(Case { kind: "oracle", labels: labels.clone(), request: hist_request("cli-rerun-oracle", &o, &sources, &steps) });
+            cases.push(Case { kind: "oracle", labels, request: hist_request("cli-fresh-oracle", &o, &sources, &steps) });
+        }
+        // 2b. the regenerate grid: first run, ONE change, second run — for the edited source A and an untouched source B
+        {
+            let gen = || node("gen", vec![]);
+            let edit = |u: u32, h: u32| list(vec![atom("edit"), num(0), num(u), num(h)]);
+            for (oi, od) in [None, Some("out"), Some("out/put"), Some("."), Some("../o2")].iter().enumerate() {
+                for flags in 0..4usize {
+                    if !thorough && oi >= 2 && (oi + flags) % 2 != 0 {
+                        continue;
+                    }
+                    let o = Opts { outdir: od.map(|x| x.to_owned()), nodyn: flags & 1 != 0, nolower: flags & 2 != 0 };
+                    let (a, b) = ("sub/MyDlg.qml", "Other.qml");
+                    let lower = |x: &str| if o.nolower { x.to_owned() } else { x.to_ascii_lowercase() };
+                    let base = match od {
+                        Some(d) => format!("{d}/sub/"),
+                        None => "sub/".to_owned(),
+                    };
+                    let (ui, hdr) = (format!("{base}{}.ui", lower("MyDlg")), format!("{base}uisupport_{}.h", lower("MyDlg")));
+                    let h0 = if o.nodyn { 0 } else { 1 };
+                    let mut scen: Vec<(&str, Vec<Sexp>)> = vec![
+                        ("constant-only", vec![edit(2, h0)]),
+                        ("neither", vec![edit(1, h0)]),
+                        ("rm-ui", vec![node("rm", vec![st(ui.clone())])]),
+                        ("ro-ui-unchanged", vec![node("chmod", vec![st(ui.clone()), atom("ro")])]),
+                        ("ro-ui-constant", vec![node("chmod", vec![st(ui.clone()), atom("ro")]), edit(3, h0)]),
+                        ("stale-ui", vec![node("put-file", vec![st(ui.clone())])]),
+                        ("source-broken-then-repaired", vec![list(vec![atom("edit"), num(0), atom("fail")]), gen(), edit(2, h0)]),
+                    ];
+                    if !o.nodyn {
+                        scen.extend(vec![
+                            ("binding-only", vec![edit(1, 2)]),
+                            ("both", vec![edit(2, 2)]),
+                            ("binding-removed", vec![edit(1, 0)]),
+                            ("rm-hdr", vec![node("rm", vec![st(hdr.clone())])]),
+                            ("rm-both", vec![node("rm", vec![st(ui.clone())]), node("rm", vec![st(hdr.clone())])]),
+                            ("rm-hdr-binding", vec![node("rm", vec![st(hdr.clone())]), edit(1, 2)]),
+                            ("ro-hdr-binding", vec![node("chmod", vec![st(hdr.clone()), atom("ro")]), edit(1, 2)]),
+                            ("ro-hdr-unchanged", vec![node("chmod", vec![st(hdr.clone()), atom("ro")])]),
+                            ("ro-both-constant", vec![node("chmod", vec![st(ui.clone()), atom("ro")]), node("chmod", vec![st(hdr.clone()), atom("ro")]), edit(2, 1)]),
+                            ("stale-hdr", vec![node("put-file", vec![st(hdr.clone())])]),
+                            ("stale-hdr-constant", vec![node("put-file", vec![st(hdr.clone())]), edit(2, 1)]),
+                        ]);
+                    }
+                    for (name, mid) in scen {
+                        let sources = vec![(a.to_owned(), format!("1 {h0}")), (b.to_owned(), format!("2 {h0}"))];
+                        let mut steps = vec![gen()];
+                        steps.extend(mid);
+                        steps.push(gen());
+                        let labels = vec!["regen-grid".to_owned(), format!("regen:{name}"), format!("outdir:{}", od.unwrap_or("none")), format!("flags{flags}")];
+                        cases.push(Case { kind: "model", labels: labels.clone(), request: hist_request("cli-hist", &o, &sources, &steps) });
+                        cases.push(Case { kind: "oracle", labels, request: hist_request("cli-fresh-oracle", &o, &sources, &steps) });
+                    }
+                }
+            }
         }
         // 3. kill points
         let n_kill = if thorough { 150 } else { 24 };
@@ -1222,6 +1696,7 @@ impl Stream for C15 {
             "cli-paths" | "spec-cli-paths" => self.answer_paths(args),
             "cli-hist" => self.answer_hist(args),
             "cli-rerun-oracle" => self.answer_rerun_oracle(args),
+            "cli-fresh-oracle" => self.answer_fresh_oracle(args),
             "cli-kill" => self.kill_cached(args).0,
             "cli-kill-oracle" => self.kill_cached(args).1,
             _ => node("bad-request", vec![]),
